@@ -18,8 +18,98 @@ let strip_full op =
   let n = String.length op in
   if n > 5 && String.sub op (n - 5) 5 = "_full" then (String.sub op 0 (n - 5), true) else (op, false)
 
+(* "_s<k>d<k>" = iterator flavour of source / destination: the model is the same *)
+let strip_flavour op =
+  let n = String.length op in
+  if n > 5 && op.[n - 5] = '_' && op.[n - 4] = 's' && op.[n - 2] = 'd'
+     && op.[n - 3] >= '0' && op.[n - 3] <= '3' && op.[n - 1] >= '0' && op.[n - 1] <= '3'
+  then String.sub op 0 (n - 5) else op
+let strip_suffix suf op =
+  let n = String.length op and k = String.length suf in
+  if n > k && String.sub op (n - k) k = suf then (String.sub op 0 (n - k), true) else (op, false)
+let icat_of = function 0 -> CatRandom | 1 -> CatInput | 2 -> CatForward | _ -> CatBidi
+let zs z = str_of_z z
+let zi i = z_of_int i
+
 let run_case op t =
+  let op = strip_flavour op in
   match op with
+  | "swap_ranges_fwd" | "swap_array" ->
+      let l1 = next_zlist t in let l2 = next_zlist t in
+      let fmt (a, b) = string_of_int (List.length a) ^ " " ^ zl a ^ " " ^ zl b in
+      (res_s fmt (swap_ranges l1 l2),
+       if List.length l2 >= List.length l1 then "ok " ^ fmt (swap_ranges_spec l1 l2) else "na")
+  | "reverse_rev" ->
+      (* etl::reverse on reverse iterators over [f, n): the random-access loop runs on the reversed view *)
+      let f = next_int t in let n = next_int t in let l = next_zlist t in
+      let len = List.length l in
+      let r = match reverse_ra (List.rev l) (nat_of_int (len - n)) (nat_of_int (len - f)) with
+        | Ok l' -> Ok (List.rev l') | Contract -> Contract | UB u -> UB u | OutOfFuel -> OutOfFuel in
+      (res_s zl r, "ok " ^ zl (reverse_spec l (nat_of_int f) (nat_of_int n)))
+  | "copy_ov" | "move_ov" ->
+      let f = next_int t in let la = next_int t in let d = next_int t in let l = next_zlist t in
+      let len = List.length l in
+      let fmt (l', r) = nat_s r ^ " " ^ zl l' in
+      let ok = (d <= f || la <= d) && d + (la - f) <= len in
+      (res_s fmt (move_fwd (nat_of_int (len + 1)) l (nat_of_int f) (nat_of_int la) (nat_of_int d)),
+       if ok then "ok " ^ string_of_int (d + (la - f)) ^ " " ^ zl (copy_within_spec l (nat_of_int f) (nat_of_int la) (nat_of_int d))
+       else "na")
+  | "copy_backward_ov" | "move_backward_ov" ->
+      let f = next_int t in let la = next_int t in let d = next_int t in let l = next_zlist t in
+      let len = List.length l in
+      let fmt (l', r) = nat_s r ^ " " ^ zl l' in
+      let ok = (la <= d || d <= f) && la - f <= d && d <= len in
+      (res_s fmt (move_bwd (nat_of_int (len + 1)) l (nat_of_int f) (nat_of_int la) (nat_of_int d)),
+       if ok then "ok " ^ string_of_int (d - (la - f)) ^ " " ^ zl (copy_backward_within_spec l (nat_of_int f) (nat_of_int la) (nat_of_int d))
+       else "na")
+  | "revit_cmp" ->
+      (* reverse iterators at reversed positions i, j of an array v[q] = 100 + q of length n (+1 sentinel) *)
+      let n = next_int t in let i = next_int t in let j = next_int t in
+      let x = zi (n - i) and y = zi (n - j) in          (* base positions *)
+      let k = zi (j - i) in
+      let elem pos = Big.to_int (big_of_z pos) + 100 in
+      let m = join [
+        b2s (rev_eq x y); b2s (rev_ne x y); b2s (rev_lt x y); b2s (rev_le x y); b2s (rev_gt x y); b2s (rev_ge x y);
+        zs (rev_diff y x); zs (rev_plus x k); zs (rev_minus y k); zs (rev_plus x k);
+        (if i < n then string_of_int (elem (rev_deref x)) else "-1");
+        (if i < n then string_of_int (elem (rev_index x (zi 0))) else "-1");
+        (if i < j then string_of_int (elem (rev_index x (zi (j - i - 1)))) else "-1");
+        b2s (rev_eq (rev_plus x k) y); b2s (rev_eq (rev_minus (rev_plus x k) k) x);
+        (* w = x; w++ (old, new); ++w (new, new); w-- (old, new); --w (new, new) *)
+        zs x; zs (rev_incr x);
+        zs (rev_incr (rev_incr x)); zs (rev_incr (rev_incr x));
+        zs (rev_incr (rev_incr x)); zs (rev_decr (rev_incr (rev_incr x)));
+        zs (rev_decr (rev_decr (rev_incr (rev_incr x)))); zs (rev_decr (rev_decr (rev_incr (rev_incr x))));
+        zs x; zs y; b2s (rev_eq x x); b2s (rev_ne y x); zs x;
+        (if i < n then string_of_int (elem (rev_deref x)) else "-1") ] in
+      (* spec: everything follows from the reversed positions i, j *)
+      let s = join [
+        b2s (i = j); b2s (i <> j); b2s (i < j); b2s (i <= j); b2s (i > j); b2s (i >= j);
+        string_of_int (j - i); string_of_int (n - j); string_of_int (n - i); string_of_int (n - j);
+        (if i < n then string_of_int (100 + n - 1 - i) else "-1");
+        (if i < n then string_of_int (100 + n - 1 - i) else "-1");
+        (if i < j then string_of_int (100 + n - 1 - (j - 1)) else "-1");
+        "1"; "1";
+        string_of_int (n - i); string_of_int (n - (i + 1));
+        string_of_int (n - (i + 2)); string_of_int (n - (i + 2));
+        string_of_int (n - (i + 2)); string_of_int (n - (i + 1));
+        string_of_int (n - i); string_of_int (n - i);
+        string_of_int (n - i); string_of_int (n - j); "1"; b2s (i <> j); string_of_int (n - i);
+        (if i < n then string_of_int (100 + n - 1 - i) else "-1") ] in
+      ("ok " ^ m, "ok " ^ s)
+  | "iter_fn" ->
+      let c = next_int t in let _len = next_int t in let pos = next_int t in let n = next_int t in
+      let cat = icat_of c in
+      let p = zi pos and nz = zi n in
+      let dist = match distance_m cat p (zi (pos + n)) with Ok d -> zs d | OutOfFuel -> "out-of-fuel" | _ -> "ub" in
+      let fwd_m = [ zs (next_m cat p nz); (if n = 1 then zs (next_m cat p (zi 1)) else "-1"); zs (advance_m cat p nz); dist ] in
+      let fwd_s = [ string_of_int (pos + n); (if n = 1 then string_of_int (pos + 1) else "-1"); string_of_int (pos + n); string_of_int n ] in
+      let bwd_m = [ zs (prev_m cat p (zi (- n))); (if n = -1 then zs (prev_m cat p (zi 1)) else "-1"); zs (advance_m cat p nz) ] in
+      let bwd_s = [ string_of_int (pos + n); (if n = -1 then string_of_int (pos - 1) else "-1"); string_of_int (pos + n) ] in
+      let bidi = c = 0 || c = 3 in
+      let m = (if n < 0 then [] else fwd_m) @ (if bidi then bwd_m else []) in
+      let s = (if n < 0 then [] else fwd_s) @ (if bidi then bwd_s else []) in
+      (join ("ok" :: m), join ("ok" :: s))
   | "rotate" | "rotate_fwd" ->
       let f = next_nat t in let m = next_nat t in let n = next_nat t in
       let l = next_zlist t in
@@ -83,20 +173,23 @@ let run_case op t =
       (res_s fmt m, spec)
   | "inplace_merge" ->
       let id = next_z t in let mid = next_nat t in let l = next_zlist t in
-      let lt = cmp_of id in
+      let lt = cmp_of2 id in
       let k = int_of_nat mid in
       let rec take n = function [] -> [] | x :: t -> if n <= 0 then [] else x :: take (n - 1) t in
       (res_s zl (inplace_merge lt l O mid (nat_of_int (List.length l))),
        "ok " ^ zl (merge_spec lt (take k l) (drop k l)))
   | _ ->
       let (nm, full) = strip_full op in
+      let (nm, rev) = strip_suffix "_rev" nm in
+      let (nm, _bidi) = if rev then (nm, false) else strip_suffix "_bidi" nm in
       (match nm with
        | "sort" | "stable_sort" | "insertion_sort" | "gnome_sort" | "bubble_sort" | "exchange_sort" | "merge_sort"
        | "nth_element" | "partial_sort" ->
            let id = next_z t in
            let k = if nm = "nth_element" || nm = "partial_sort" then next_int t else 0 in
            let l = next_zlist t in
-           let lt = cmp_of id in
+           let l = if rev then List.rev l else l in   (* the algorithm sees the reversed view; all legs print it *)
+           let lt = cmp_of2 id in
            let m = match nm with
              | "stable_sort" | "insertion_sort" -> insertion_sort lt l
              | "sort" | "gnome_sort" | "nth_element" | "partial_sort" -> gnome_sort lt l
